@@ -231,7 +231,7 @@ def shrink(scn):
 
 import re as _re
 
-_STATUS_LINE = _re.compile(rb"HTTP/1\.[01] (\d\d\d) ")
+_STATUS_LINE = _re.compile(rb"HTTP/\d\.\d (\d\d\d) ")  # aiohttp echoes the request's version, whatever it is (e.g. HTTP/2.0)
 # judgments made on the response stream: meaningless (consequences only) once a started response has been
 # overwritten by another one - that is reported once, under its cause, as one_response_once_started
 WIRE_RULES = ("well_formed_responses", "in_order_once", "at_most_one_response", "complete_responses", "reject_closes",
